@@ -60,7 +60,14 @@ def lin(F, w, idx_of_k, h):
 def get_modules():
     import aurel.finitedifference as FDm
     shim = SX.ShimNPz()
-    mod = RebMod(FDm, {'np': shim})
+    over = {'np': shim}
+    for nm, val in vars(FDm).items():                # module-level numpy tables of the code under test become symbolic arrays
+        if isinstance(val, np.ndarray):
+            try:
+                over[nm] = SX.lift_array(val, nm)
+            except SX.PathAbort:
+                pass
+    mod = RebMod(FDm, over)
     cls = rebind_class(FDm.FiniteDifference, mod._g)
     return FDm, mod, cls
 
@@ -208,7 +215,7 @@ def native_int_replay(p, mode, axis):
                         f'(int input gives {a[idx]!r}, float input {b[idx]!r})')
 
 
-def native_poly_replay(p, mode, axes=(0, 1, 2)):
+def native_poly_replay(p, mode, axes=(0, 1, 2), long_axis=None):
     """replay on the real code: random real field on non-cubic grids of the minimum supported size
     and above; every output sample of d3x/d3y/d3z is compared with the reference linear
     combination (standard weights, wrap / mirror index maps written out in numpy); for one-sided
@@ -219,8 +226,12 @@ def native_poly_replay(p, mode, axes=(0, 1, 2)):
     wc, wf, wb = (ref_weights(offsets(k, p)) for k in ('centered', 'forward', 'backward'))
     nmin = {'no boundary': 3 * p // 2, 'periodic': m, 'symmetric': m + 1}[mode]
     lines, bad = [], False
-    for N in (nmin, nmin + 1, 2 * p + 3):
-        dims = [N, N + 1, N + 2]
+    cases = [[N, N + 1, N + 2] for N in (nmin, nmin + 1, 2 * p + 3)]
+    if long_axis is not None:
+        # one long axis (beyond any small fixed table size), short transversally
+        cases = [[long_axis if k == ax_ else max(nmin, 4) + k for k in range(3)] for ax_ in axes]
+    for dims in cases:
+        N = dims[0]
         steps = [0.25, 0.5, 0.125]
         par = dict(Nx=dims[0], Ny=dims[1], Nz=dims[2], xmin=-1., ymin=0.5, zmin=2., dx=steps[0], dy=steps[1], dz=steps[2])
         try:
@@ -292,12 +303,15 @@ def run(R):
             t0 = time.time()
             found = None
             last = None
+            unsure = None
             for cand in range(1, 2 * p + 3):
                 okv, fails, nob, secs, undec = run_operator(cls, FDm, p, mode, 0, cand)
                 last = (fails, undec, nob)
                 if okv:
                     found = cand
                     break
+                if undec and not fails and unsure is None:
+                    unsure = (cand, undec)      # neither proved nor refuted at this size: the minimum is not determined by this run
             nmins[(p, mode)] = found
             name = f'fd.d3x[order={p},{mode}]:all-N>={found}-all-points'
             if found is None:
@@ -310,10 +324,14 @@ def run(R):
                 R.ob(name, 'd3x', 'discharged', 'z3', time.time() - t0,
                      f'{last[2]} verification conditions (shape, value, every read index in range); minimum supported size computed = {found}')
                 R.extra.setdefault('minimum_supported_size', {})[f'order {p}, {mode}'] = found
-                R.ob(f'fd.d3x[order={p},{mode}]:minimum-size-is-{exp_min}', 'd3x',
-                     'discharged' if found == exp_min else 'refuted', 'z3', 0.0,
-                     '' if found == exp_min else f'computed minimum size {found} != expected {exp_min}',
-                     None if found == exp_min else ['nmin'], replay=lambda o, p=p, mode=mode: native_poly_replay(p, mode))
+                if found != exp_min and unsure is not None and unsure[0] < found:
+                    R.ob(f'fd.d3x[order={p},{mode}]:minimum-size-is-{exp_min}', 'd3x', 'undecided', 'z3', 0.0,
+                         f'size {unsure[0]} was neither proved nor refuted ({unsure[1][0][:120]}); first size proved: {found}')
+                else:
+                    R.ob(f'fd.d3x[order={p},{mode}]:minimum-size-is-{exp_min}', 'd3x',
+                         'discharged' if found == exp_min else 'refuted', 'z3', 0.0,
+                         '' if found == exp_min else f'computed minimum size {found} != expected {exp_min}',
+                         None if found == exp_min else ['nmin'], replay=lambda o, p=p, mode=mode: native_poly_replay(p, mode))
     # axes y, z
     orders_axes = [4] if R.tier == 'quick' else ORDERS
     for p in orders_axes:
@@ -336,6 +354,18 @@ def run(R):
             R.ob(f'fd.d3{"xyz"[axis]}[order={p},{mode}, integer-dtype field]:same real-valued derivative (no truncation to the input dtype)', 'd3' + 'xyz'[axis], st, 'z3', secs,
                  '' if okv else ('; '.join(undec) or '; '.join(f'{a}: {b}' for a, b, _ in fails[:3])),
                  None if okv else [f[0] for f in fails], replay=lambda o, mode=mode, axis=axis: native_int_replay(4, mode, axis))
+    # long axes on the real code (cross-check of the all-N proof against anything keyed to a fixed size): 300 and 1100 points
+    for mode in MODES:
+        t0 = time.time()
+        found, text = False, ''
+        for L_ in (300, 1100):
+            f_, t_ = native_poly_replay(4, mode, (0, 1, 2), long_axis=L_)
+            if f_:
+                found, text = True, t_
+                break
+        R.ob(f'fd.d3xyz[order=4,{mode}, axis of 300 / 1100 points]:same weights on long axes (real code)', 'd3x', 'refuted' if found else 'bounded-ok', 'bounded-native',
+             time.time() - t0, text[:600] if found else 'every output sample equals the reference combination', ['long-axis'] if found else None,
+             bounded='axis lengths 300 and 1100, order 4', replay=lambda o, mode=mode: native_poly_replay(4, mode, (0, 1, 2), long_axis=300))
     # tensor wrappers
     for wrapper, rank in [('d3_scalar', 0), ('d3_rank1tensor', 1), ('d3x_rank1tensor', 1), ('d3y_rank1tensor', 1),
                           ('d3z_rank1tensor', 1), ('d3_rank2tensor', 2), ('d3x_rank2tensor', 2), ('d3y_rank2tensor', 2),
